@@ -327,6 +327,8 @@ PROPS = {    "C01": {
                        "bounds": {"socket": "no socket file | first run answers (status running/failed/canceled/finished) | peer hangs | stale socket file", "steps": 1, "handlers": "onExit"}}},
             ag_ob("C16.race", "VerifHarness_C16_race", ["C16."], ["C16.race/two-simultaneous-starts-never-both-execute-steps"], {"agents": 2, "steps": 1, "instant_of_second_start": "between the first run's probe and its bind (forced)"},
                   must_reach=[]),  # every path of this obligation ends in the listed finding F16
+            ag_ob("C16.window", "VerifHarness_C16_window", ["C16."], ["C16.window/second-start-is-refused-once-the-first-run-is-listening", "C16.window/first-run-is-not-disturbed"],
+                  {"agents": 2, "steps": 1, "instant_of_second_start": "after the first run's socket is listening, before its steps start (forced); the probe is answered by the first run's real HandleHTTP"}),
         ],
         "assumptions": ["C16.race: two real agent.Run calls on one DAG file; run A is parked (channel in its history fake) after its socket probe and before its bind while run B starts and runs; unix-socket listener model: bind fails iff the path exists, unlink orphans the listener",
                         "the real agent.Run and client.GetCurrentStatus run over the socket model ((*sock.Client).Request summarised: dial failure / registered payload / timeout)",
